@@ -1574,7 +1574,10 @@ impl WriteTaskState {
         if let Some(remote_id) = target {
             trace!(response = ?response, "Routing response to {}.", remote_id);
             links.count_single(id);
-            let write = if !links.is_linked(remote_id, id) {
+            let write = if !write_tracker.has_remote(remote_id) {
+                trace!(response = ?response, "Discarding response for detached remote {}.", remote_id);
+                Writes::Zero
+            } else if !links.is_linked(remote_id, id) {
                 trace!(response = ?response, "Sending implicit linked message to {}.", remote_id);
                 links.insert(id, remote_id);
                 let write1 = write_tracker.push_special(SpecialAction::Linked(id), &remote_id);
